@@ -15,10 +15,32 @@ open Kvass
 def Holds (ss : List SI) (j : Nat) (h : Hash) (v : St) : Prop :=
   ∃ sj, ss[j]? = some sj ∧ sj.changeable = true ∧ sj.scraping.get h = some v
 
+/-- a surviving entry is the reported one, or the reported in-transfer entry turned back to normal -/
+def Rev (v0 v : St) : Prop := v = v0 ∨ (v0.state = .inTransfer ∧ v = revertSt v0)
+
+theorem Rev.times {v0 v : St} (h : Rev v0 v) : v.times = v0.times := by
+  rcases h with h | ⟨_, h⟩ <;> subst h <;> rfl
+
+theorem Rev.fields {v0 v : St} (h : Rev v0 v) :
+    v.health = v0.health ∧ v.series = v0.series ∧ v.total = v0.total ∧ v.times = v0.times := by
+  rcases h with h | ⟨_, h⟩ <;> subst h <;> exact ⟨rfl, rfl, rfl, rfl⟩
+
+theorem Rev.state {v0 v : St} (h : Rev v0 v) : v.state = v0.state ∨ v.state = .normal := by
+  rcases h with h | ⟨_, h⟩ <;> subst h
+  · exact Or.inl rfl
+  · exact Or.inr rfl
+
+theorem revertSt_idem (v : St) : revertSt (revertSt v) = revertSt v := rfl
+
+theorem Rev.revert {v0 v : St} (h : Rev v0 v) (hs : v.state = .inTransfer) : Rev v0 (revertSt v) := by
+  rcases h with h | ⟨h0, h⟩
+  · subst h; exact Or.inr ⟨hs, rfl⟩
+  · subst h; exact Or.inr ⟨h0, rfl⟩
+
 structure GcInv (active : List Hash) (ss0 ss : List SI) : Prop where
   len : ss.length = ss0.length
   same : ∀ (i : Nat) (s : SI), ss[i]? = some s → ∃ s0 : SI, ss0[i]? = some s0 ∧ s.changeable = s0.changeable ∧ s.rt = s0.rt ∧
-          (∀ h v, s.scraping.get h = some v → s0.scraping.get h = some v) ∧
+          (∀ h v, s.scraping.get h = some v → ∃ v0, s0.scraping.get h = some v0 ∧ Rev v0 v) ∧
           (s0.changeable = false → s = s0)
   lost : ∀ (i : Nat) (s0 s : SI) (h : Hash) (v0 : St), ss0[i]? = some s0 → ss[i]? = some s → s0.scraping.get h = some v0 →
           s.scraping.get h = none → h ∈ active →
@@ -26,7 +48,7 @@ structure GcInv (active : List Hash) (ss0 ss : List SI) : Prop where
 
 theorem gcInv_refl (active : List Hash) (ss : List SI) : GcInv active ss ss where
   len := rfl
-  same := fun i s h => ⟨s, h, rfl, rfl, fun _ _ hv => hv, fun _ => rfl⟩
+  same := fun i s h => ⟨s, h, rfl, rfl, fun _ v hv => ⟨v, hv, Or.inl rfl⟩, fun _ => rfl⟩
   lost := by
     intro i s0 s h v0 h0 h1 hg hn _
     rw [h0] at h1; cases h1
@@ -94,11 +116,12 @@ theorem gcStep_inv {o : Opt} {active : List Hash} {ss0 ss : List SI} {i : Nat} {
       · subst hkh
         obtain ⟨s0', h0', _, _, hsub, _⟩ := inv.same i s hs
         rw [h0] at h0'; cases h0'
-        have : v0 = tar := by
-          have := hsub h tar htar; rw [hg0] at this; exact Option.some.inj this
-        subst this
+        have ht : tar.times = v0.times := by
+          obtain ⟨v0', e, hr⟩ := hsub h tar htar
+          rw [hg0] at e; cases e
+          exact hr.times
         obtain ⟨h3, j, st, hne, hh, hst⟩ := hact hk
-        exact ⟨h3, j, st, hne, holds_ne j h st hne hh, hst⟩
+        exact ⟨by omega, j, st, hne, holds_ne j h st hne hh, hst⟩
       · rw [AL.get_del_ne _ _ _ hkh] at hnone
         obtain ⟨h3, j, vj, hne, hh, hvj⟩ := inv.lost i s0 s k v0 h0 hs hg0 hnone hk
         exact ⟨h3, j, vj, hne, holds_ne j k vj hne hh, hvj⟩
@@ -124,6 +147,62 @@ theorem gcStep_inv {o : Opt} {active : List Hash} {ss0 ss : List SI} {i : Nat} {
           rw [AL.get_del_ne _ _ _ hkh]; exact e3
       · exact ⟨j, vj, hne, holds_ne j k vj hji hh, hvj⟩
 
+/-- turning a partner-less in-transfer copy back to normal preserves the invariant -/
+theorem gcRevert_inv {active : List Hash} {ss0 ss : List SI} {i : Nat} {s : SI} {h : Hash} {tar : St}
+    (inv : GcInv active ss0 ss) (hs : ss[i]? = some s) (hch : s.changeable = true)
+    (htar : s.scraping.get h = some tar) (hst : tar.state = .inTransfer) :
+    GcInv active ss0 (ss.set i { s with scraping := s.scraping.set h (revertSt tar) }) := by
+  have holds_any : ∀ j k v, Holds ss j k v →
+      ∃ v', Holds (ss.set i { s with scraping := s.scraping.set h (revertSt tar) }) j k v' ∧ v'.times = v.times := by
+    intro j k v ⟨sj, h1, h2, h3⟩
+    by_cases hji : j = i
+    · subst hji
+      rw [hs] at h1; cases h1
+      by_cases hkh : h = k
+      · subst hkh
+        rw [htar] at h3; cases h3
+        exact ⟨revertSt tar, ⟨_, getElem?_set_self' hs, hch, by simp only; rw [AL.get_set]; simp⟩, rfl⟩
+      · exact ⟨v, ⟨_, getElem?_set_self' hs, hch, by simp only; rw [AL.get_set_ne _ _ _ _ hkh]; exact h3⟩, rfl⟩
+    · exact ⟨v, ⟨sj, by rw [getElem?_set_ne' (Ne.symm hji)]; exact h1, h2, h3⟩, rfl⟩
+  refine ⟨by rw [List.length_set]; exact inv.len, ?_, ?_⟩
+  · intro i' s' hs'
+    by_cases hi : i = i'
+    · subst hi
+      rw [getElem?_set_self' hs] at hs'
+      cases hs'
+      obtain ⟨s0, h0, hc0, hr0, hsub, hnc⟩ := inv.same i s hs
+      refine ⟨s0, h0, hc0, hr0, ?_, ?_⟩
+      · intro k v hk
+        simp only at hk
+        rw [AL.get_set] at hk
+        split at hk
+        · rename_i hkh; subst hkh
+          cases hk
+          obtain ⟨v0, e0, hr⟩ := hsub h tar htar
+          exact ⟨v0, e0, hr.revert hst⟩
+        · exact hsub k v hk
+      · intro hf; rw [← hc0, hch] at hf; cases hf
+    · rw [getElem?_set_ne' hi] at hs'
+      exact inv.same i' s' hs'
+  · intro i' s0 s' k v0 h0 hs' hg0 hnone hk
+    have old : ∃ sOld, ss[i']? = some sOld ∧ sOld.scraping.get k = none := by
+      by_cases hi : i = i'
+      · subst hi
+        rw [getElem?_set_self' hs] at hs'
+        cases hs'
+        refine ⟨s, hs, ?_⟩
+        simp only at hnone
+        rw [AL.get_set] at hnone
+        split at hnone
+        · cases hnone
+        · exact hnone
+      · rw [getElem?_set_ne' hi] at hs'
+        exact ⟨s', hs', hnone⟩
+    obtain ⟨sOld, hso, hno⟩ := old
+    obtain ⟨h3, j, vj, hne, hh, hvj⟩ := inv.lost i' s0 sOld k v0 h0 hso hg0 hno hk
+    obtain ⟨v', hh', ht'⟩ := holds_any j k vj hh
+    exact ⟨h3, j, v', hne, hh', by omega⟩
+
 theorem gcShard_inv {o : Opt} {active : List Hash} {ss0 : List SI} (i : Nat) :
     ∀ (hs : List Hash) (ss : List SI), GcInv active ss0 ss →
       (∀ s, ss[i]? = some s → s.changeable = true) → GcInv active ss0 (gcShard o active i hs ss) := by
@@ -147,7 +226,22 @@ theorem gcShard_inv {o : Opt} {active : List Hash} {ss0 : List SI} (i : Nat) :
             rw [getElem?_set_self' hs'] at h2
             cases h2
             exact hch s hs'
-        · exact ih ss inv hch
+        · split
+          · rename_i hr
+            have hst : tar.state = .inTransfer := by
+              unfold gcReverts at hr
+              simp only [Bool.and_eq_true] at hr
+              have := hr.2
+              unfold Gen.gcRevert at this
+              simp only [Bool.and_eq_true, decide_eq_true_eq] at this
+              exact this.2
+            apply ih
+            · exact gcRevert_inv inv hs' (hch s hs') htar hst
+            · intro s2 h2
+              rw [getElem?_set_self' hs'] at h2
+              cases h2
+              exact hch s hs'
+          · exact ih ss inv hch
 
 theorem gcFrom_inv {o : Opt} {active : List Hash} {ss0 : List SI} :
     ∀ (is : List Nat) (ss : List SI), GcInv active ss0 ss → GcInv active ss0 (gcFrom o active is ss) := by
